@@ -16,7 +16,8 @@
       { S… } | if (c) S | if (c) S else S | while (c) S | do S while (c); | for (F; c; F) S   (stage 2)
       break; | continue; | if (c) break; | if (c) continue;   inside loops                    (stage 5)
       c ::= a ⋈ b | lv | !lv | c && c | c || c | !c     ⋈ ∈ {==, !=, <, >=, >, <=}; no ordered comparison with
-      c ::= … | (e) ⋈ m | m ⋈ (e) | (e) | !(e)          e a *quiet* tree, m a memory operand or constant    (stage 12)
+      c ::= … | (e) ⋈ m | m ⋈ (e) | (e) | !(e)          e a tree, m a memory operand or constant            (stage 12)
+      c ::= … | (e) ⋈ X | X ⋈ (e)  (also Y)              e a tree that leaves the scratch cell free          (stage 13)
       literal 0, not two constants, not two registers, not `t[X] ⋈ X` (element subscripted by a register against a
       register on the right: the real generator compares the register with itself — recorded finding)
   nested to any depth, any length.
@@ -80,14 +81,21 @@
      the tree `e ^ 255` and `-(e)` the tree `0 − e`, as in generate_bnot / generate_neg. Same theorems
      (`tree_code_correct`, `tree_value_is_plain` with `shVal` = `<<<` / `>>>` on bytes). Outside: shifts by 8 and more
      (special cases of the generator), shifts of constants (folded), signed operands (arithmetic shift).
-   * stage 12 (trees in conditions): `(e) ⋈ m`, `m ⋈ (e)`, `if (e)`, `!(e)` where `e` is a tree whose code writes
-     nothing the source can see (`quietE`: no spill, no push, no register operand through the scratch cell — a chain that
-     continues on the accumulator) and `m` a variable, array element or constant: the tree's value stays in A, the
-     compare is `CMP m` with the operator mirrored when the tree was written on the right, `== 0` / `!= 0` and `if (e)`
-     use the flags of the last arithmetic instruction (`CMP #0` first when that was a shift). `evalE_quiet`: such a
-     tree leaves memory, X, Y and SP as they were, so the conditions stay effect-free and the structured-program
-     theorems cover them unchanged (`genCond_correct` cases `cmpETest_correct`, `truthETest_correct`). Trees that spill
-     are not allowed in conditions (the source meaning `sem` evaluates conditions without effect).
+   * stage 12 (trees in conditions): `(e) ⋈ m`, `m ⋈ (e)`, `if (e)`, `!(e)` where `e` is a tree the generator accepts
+     and `m` a variable, array element or constant: the tree's value stays in A, the compare is `CMP m` with the
+     operator mirrored when the tree was written on the right, `== 0` / `!= 0` and `if (e)` use the flags of the last
+     arithmetic instruction (`CMP #0` first when that was a shift).
+   * stage 13 (conditions with effects): evaluating a condition may now write the compiler's own cells — a tree that
+     spills, and `(e) ⋈ X` / `X ⋈ (e)` (also Y), compiled as `STA cctmp ; CPX cctmp` with the register as left operand
+     of the compare. The source meaning threads that state: `condRun` gives the truth value AND the state the
+     condition leaves; `&&` / `||` evaluate their second operand in the state the first one left, and only when needed;
+     `sem` continues from `condEff` on both branches of every `if`, around every loop test, in `if (c) break;`. The
+     condition specification `CondSpecM` carries the effect, the combinators for `&&` / `||` compose effects
+     (`condSeqBoth`, `condSkipOver`), and `genCond_correct` proves for every condition of the fragment that the code
+     jumps iff `evalCond ≠ negate` AND leaves exactly `condEff` (memory, X, Y, stack page), SP and the flag belief as
+     before. The plain reading (`semPure`, `evalCondP`: no state threaded) agrees outside the compiler's cells
+     (`condRun_eqOff`), so `struct_program_correct_pure` is unchanged for the reader. Quiet trees (`quietE`,
+     `evalE_quiet`) are the special case whose effect is the identity.
    * `fresh_labels`: every label the generator defines is new (counter ranges), the fact behind the
      uniqueness of labels in emitted code (used again by C13).
    * `adc_after_clc`, `sbc_after_sec`, `negate_means_not`, `mirror_means_swap`: the arithmetic and
@@ -325,7 +333,7 @@ example : SInFragment sdemo = true := by decide
 example : ((gen none {} sdemo).1.map GLine.text).length = 44 := by decide
 example (L : Layout) (σ : SrcSt) (h : σ.x = 1) :
     sem L 4 σ (.doWhile (.flat (.dec .x)) (.truth .x)) = some (.norm, { σ with x := 0 }) := by
-  simp [sem, rspec, evalCond, wr, rval, LV.ra, h]
+  simp [sem, rspec, evalCond_cmp, evalCond_truth, evalCond_nottruth, evalCond_cmpE, evalCond_truthE, evalCond_not, evalCond_and, evalCond_or, condEff_cmp, condEff_truth, condEff_nottruth, condEff_cmpE, condEff_truthE, condEff_not, condEff_and, condEff_or, wr, rval, LV.ra, h]
 example (L : Layout) (σ : SrcSt) : ∃ o, sem L 3 σ (.ifElse (.truth .y) (.flat (.inc (.var "b"))) (.flat (.dec (.var "b")))) = some o := by
   simp only [sem]; split <;> exact ⟨_, rfl⟩
 
@@ -345,9 +353,9 @@ example (L : Layout) (σ : SrcSt) :
     sem L 5 σ (.while (.truth .x) (.seq (.flat (.asg .y (ca 7))) .brk)) =
       some (.norm, if σ.x != 0 then { σ with y := 7 } else σ) := by
   by_cases h : σ.x = 0
-  · simp [sem, rspec, evalCond, wr, rval, LV.ra, val, ca, h]
+  · simp [sem, rspec, evalCond_cmp, evalCond_truth, evalCond_nottruth, evalCond_cmpE, evalCond_truthE, evalCond_not, evalCond_and, evalCond_or, condEff_cmp, condEff_truth, condEff_nottruth, condEff_cmpE, condEff_truthE, condEff_not, condEff_and, condEff_or, wr, rval, LV.ra, val, ca, h]
   · have h' : ¬ σ.x = 0#8 := h
-    simp [sem, rspec, evalCond, wr, rval, LV.ra, val, ca, h']
+    simp [sem, rspec, evalCond_cmp, evalCond_truth, evalCond_nottruth, evalCond_cmpE, evalCond_truthE, evalCond_not, evalCond_and, evalCond_or, condEff_cmp, condEff_truth, condEff_nottruth, condEff_cmpE, condEff_truthE, condEff_not, condEff_and, condEff_or, wr, rval, LV.ra, val, ca, h']
 
 /-! non-vacuity of stage 7 -/
 example : rgenText (fun _ => true) (.chain (.var "v") (.of (.const 3)) .add (.of (.var "a")) [(.sub, .x), (.bor, .of (.el "t" .y))]) =
@@ -412,9 +420,22 @@ example : SInFragment (.ifThen (.cmpE .lt (.bin (.bin (.atom (.of (.var "a"))) .
 example : (gen none {} (.while (.truthE (.sh (.atom (.of (.var "a"))) false 1)) (.flat (.dec (.var "a"))))).1.map GLine.text =
     ["L:2e7768696c6531", "LDA:61", "LSR:-", "CMP:2330", "BEQ:2e7768696c65656e6431", "DEC:61", "JMP:2e7768696c6531",
      "L:2e7768696c65656e6431"] := by decide
-/-- a tree that spills is not a condition of the fragment -/
-example : CondOK (.truthE (.bin (.bin (.atom (.of (.var "a"))) .add (.atom (.of (.var "b")))) .sub
-      (.bin (.atom (.of (.var "c"))) .band (.atom (.of (.var "d")))))) = false := by decide
+/-! non-vacuity of stage 13: a tree that spills as a truth test; a tree against X -/
+example : (gen none {} (.ifThen (.truthE (.bin (.bin (.atom (.of (.var "a"))) .add (.atom (.of (.var "b")))) .sub
+      (.bin (.atom (.of (.var "c"))) .band (.atom (.of (.var "d")))))) (.flat (.inc (.var "d"))))).1.map GLine.text =
+    ["LDA:61", "CLC:-", "ADC:62", "PHA:-", "LDA:63", "AND:64", "STA:6363746d70", "PLA:-", "SEC:-", "SBC:6363746d70",
+     "BEQ:2e6966656e6431", "INC:64", "L:2e6966656e6431"] := by decide
+example : (gen none {} (.while (.cmpR .ne (.bin (.atom (.of (.var "a"))) .add (.atom (.of (.const 1)))) false true)
+      (.flat (.inc (.var "a"))))).1.map GLine.text =
+    ["L:2e7768696c6531", "LDA:61", "CLC:-", "ADC:2331", "STA:6363746d70", "CPX:6363746d70", "BEQ:2e7768696c65656e6431",
+     "INC:61", "JMP:2e7768696c6531", "L:2e7768696c65656e6431"] := by decide
+example : SInFragment (.while (.cmpR .ne (.bin (.atom (.of (.var "a"))) .add (.atom (.of (.const 1)))) false true)
+      (.flat (.inc (.var "a")))) = true := by decide
+/-- the condition `(a + 1) != X` leaves the tree's value in the scratch cell -/
+example (L : Layout) (m : SrcSt) : condEff L m (.cmpR .ne (.bin (.atom (.of (.var "a"))) .add (.atom (.of (.const 1)))) false true)
+    = setTmp L m (m.mem.read (L "a") + 1) := by
+  simp [condEff_cmpR, treeRun, evalE, evalArithm, plan, planOK, mkPlan, order, ET.isConst, ET.isReg, RA.isConst, RA.isReg,
+    evalPlan, Plan.save, leftVal, rval, val, opnd, tmpWrite, BOp.apply]
 
 /-- a layout that meets the hypotheses of `tree_value_is_plain` (and of `struct_program_correct_pure`): the program's
     cells and `cctmp` in the zero page, below the stack page -/
